@@ -92,6 +92,60 @@ def correspondence(res, tier, rng):
                 res.disagree("model state %d not trace-one/Hermitian although the hypotheses hold" % k, desc)
 
 
+def physical_paths(res):
+    """code paths that do not go through the tensors shipped to the model (always run): every
+    state they report has unit trace and is Hermitian (property text)"""
+    import oqupy
+    from oqupy import operators as op
+    # (a) a process tensor computed straight into an HDF5 file: ALL recorded states, not only the last
+    corr = oqupy.PowerLawSD(alpha=0.3, zeta=1.0, cutoff=3.0, cutoff_type="exponential", temperature=0.4)
+    bath = oqupy.Bath(0.5 * op.sigma("y") + 0.3 * op.sigma("z"), corr)
+    sysm = oqupy.System(0.4 * op.sigma("x"), gammas=[0.2], lindblad_operators=[op.sigma("-")])
+    par = oqupy.TempoParameters(dt=0.1, epsrel=1e-9, dkmax=None)
+    ptf = oqupy.pt_tempo_compute(bath=bath, start_time=0.0, end_time=0.63, parameters=par,
+                                 process_tensor_file=True, progress_type="silent")
+    try:
+        states = oqupy.compute_dynamics(sysm, initial_state=op.spin_dm("y+"), process_tensor=ptf,
+                                        start_time=0.0, progress_type="silent").states
+    finally:
+        ptf.close()
+        try:
+            ptf.remove()
+        except Exception:                                   # noqa: BLE001 - temp file clean-up only
+            pass
+    for k, st in enumerate(states):
+        bad = physical(np.array(st), True, tol=1e-6)
+        res.case("file-backed:%d" % k, True, None)
+        if bad:
+            res.fail("file-backed PT-TEMPO + compute_dynamics: state of step %d" % k,
+                     {"api": "pt_tempo_compute(process_tensor_file=True) + compute_dynamics",
+                      "step": k, "complaints": bad})
+            break
+    # (b) mean-field evolution with sampled propagators (subdiv_limit=None)
+    tsys = oqupy.TimeDependentSystemWithField(
+        lambda t, a: 0.5 * op.sigma("x") + 0.2 * np.real(a) * op.sigma("z"),
+        gammas=[lambda t: 0.1 + 0.05 * t], lindblad_operators=[lambda t: op.sigma("-")])
+    mfs = oqupy.MeanFieldSystem([tsys], lambda t, st, a: -0.2j * a + 0.1 * np.trace(op.sigma("x") @ st[0]))
+    mpar = oqupy.TempoParameters(dt=0.1, epsrel=1e-8, dkmax=3, subdiv_limit=None)
+    mft = oqupy.MeanFieldTempo(mean_field_system=mfs, bath_list=[oqupy.Bath(0.5 * op.sigma("z"), corr)],
+                               initial_state_list=[op.spin_dm("x+")], initial_field=1.0,
+                               start_time=0.0, parameters=mpar)
+    runs = {"MeanFieldTempo(subdiv_limit=None)":
+            mft.compute(0.43, progress_type="silent").system_dynamics[0].states,
+            "compute_dynamics_with_field(subdiv_limit=None)":
+            oqupy.compute_dynamics_with_field(mfs, initial_field=1.0,
+                                              initial_state_list=[op.spin_dm("x+")], dt=0.1, num_steps=4,
+                                              start_time=0.0, subdiv_limit=None,
+                                              progress_type="silent").system_dynamics[0].states}
+    for api, sts in runs.items():
+        for k, st in enumerate(sts):
+            bad = physical(np.array(st), False, tol=1e-6)
+            res.case("%s:%d" % (api, k), True, None)
+            if bad:
+                res.fail("%s: state of step %d" % (api, k), {"api": api, "step": k, "complaints": bad})
+                break
+
+
 def search(res):
     import oqupy
     from oqupy import operators as op
@@ -161,6 +215,7 @@ def run(tier, seed, replay):
                          THEOREMS, extra_modules=EXTRA_MODULES)
     try:
         correspondence(res, tier, rng)
+        physical_paths(res)
         # the PT-TEBD and Gibbs parts of the property: their models, the hypotheses of the norm /
         # Hermiticity theorems on the real tensors, and the real results (harnesses of C10 / C11)
         from . import run_C10, run_C11
